@@ -81,9 +81,9 @@ claimed = sorted(CLAIMS)
 m = {
  "version": 1,
  "setup_cmd": "./setup.sh",
- "hooks": {"guard": "verif_hooks", "enable": "cargo feature verif_hooks (no hook commit exists yet: every check so far drives the public API of the crates through path dependencies)",
+ "hooks": {"guard": "verif_hooks", "enable": "cargo feature `verif_hooks` of the qbice crate (off by default; the harness depends on qbice with features = [\"verif_hooks\"]); it only adds qbice::verif_hooks::BackwardEdgeSet, a wrapper around the crate-private tiered backward-edge set (used by check C02); every other check drives the public API",
            "baseline_off_cmd": "cd /repo && (cargo nextest run --workspace --no-fail-fast --test-threads 8 --offline || cargo test --workspace --no-fail-fast --offline)",
-           "source_commits": [], "add_only": True},
+           "source_commits": ["fe8d8d6"], "add_only": True},
  "engines": [
   {"name": "coq", "path": "coq", "serves_properties": claimed, "kind_free_text": "Coq 8.16.1 development: hand-written executable models + theorems; Properties/Cxx.v pin the statements"},
   {"name": "harness", "path": "harness", "serves_properties": claimed, "kind_free_text": "Rust correspondence harness with path dependencies into /repo/crates (rebuilt from the working tree on every run)"},
